@@ -349,7 +349,7 @@ const FN_NAMES: &[&str] = &[
     "r#match", "r#fn", "add", "mul", "x9", "x10", "X", "from_iter", "über", "naïve", "日本",
 ];
 const MOD_NAMES: &[&str] = &["m", "m1", "m2", "m10", "util", "inner", "r#mod", "r#loop", "a", "bench", "zz", "ö"];
-const DISPLAY: &[&str] = &["Custom", "custom name", "1", "02", "Ünï", "a::b", "x<y>", "bench"];
+const DISPLAY: &[&str] = &["Custom", "custom name", "1", "02", "Ünï", "a::b", "x<y>", "bench", "a,b"];
 const ARG_LISTS: &[&[&str]] = &[
     &["0", "1", "2"],
     &["10", "9", "1", "-3", "100"],
@@ -361,6 +361,8 @@ const ARG_LISTS: &[&[&str]] = &[
     &[""],
     &["é", "z", "日本"],
     &["1", "1000", "100", "10"],
+    // Debug renderings of tuples: commas and parentheses in case paths (and so in filters)
+    &["(1, 2)", "(1, 3)", "(2, 2)"],
 ];
 
 impl Gen<'_> {
@@ -515,6 +517,18 @@ impl Gen<'_> {
                     let cs = if with_c { format!("{}:{}", consts.0, consts.1.join(":")) } else { "-".into() };
                     self.items.push(format!("G {} {} {} {} {line} {col} {opts} {ts} {cs} {a}", hex(path), hex(f), hex(&disp), hex(&file)));
                     self.paths.push(format!("{path}::{disp}"));
+                    // instantiation paths as filter seeds (type names may hold commas)
+                    for t in &tys {
+                        let raw = type_raw_name(*t);
+                        let mut name = raw;
+                        while let Some((prev, next)) = name.split_once("::") {
+                            if prev.contains('<') {
+                                break;
+                            }
+                            name = next;
+                        }
+                        self.paths.push(format!("{path}::{disp}::{name}"));
+                    }
                 }
             }
         }
